@@ -46,8 +46,10 @@ UNPROVED = [
     "evaluation of the same expressions stays within 1e-9 of the real value is compared, not proved",
     "the hypergeometric weights in emi_textbook are not proved to sum to 1 (Vandermonde) - not needed for the "
     "equality of the code's loop with the textbook expectation",
-    "frames_are_labelAt: tie of the frame sampler to the C13 interval denotation is by lemma labelAtFrame_eq "
-    "(sorted, non-overlapping rows) and correspondence, not yet by a theorem about whole segmentations",
+    "frames_are_labelAt (proved for contiguous segmentations starting at or before 0; with gaps: frames_carry_labelAt "
+    "wherever the annotation has a label) reads the frame times as the exact rationals i*frame_size; that numpy's "
+    "binary64 arange(n)*frame_size and searchsorted land on the same side of every boundary is compared on the "
+    "exact lattice and the decimal stream, not proved",
 ]
 EXHAUSTIVE = {"quick": False, "thorough": True}
 
